@@ -19,8 +19,8 @@ RLIMIT_RETRY = 80    # second attempt for a failed baseline obligation
 # property -> units (order = layering, bottom first)
 PROPERTY_UNITS = {
     "C06": ["bdd_ops", "dnf", "proper_subtype", "semtype_ops"],
-    "C04": ["bdd_ops", "dnf", "proper_subtype", "semtype_ops", "to_schema", "list_shape", "mapping_dnf", "access", "list_access"],
-    "C05": ["semtype_ops", "list_shape", "mapping_dnf"],
+    "C04": ["bdd_ops", "dnf", "proper_subtype", "semtype_ops", "to_schema", "list_shape", "mapping_dnf", "access", "list_access", "ctx_tables"],
+    "C05": ["semtype_ops", "list_shape", "mapping_dnf", "ctx_tables"],
     "C07": ["dnf", "to_schema", "list_access", "access"],
 }
 # obligation kind -> which property "owns" it when no explicit tag is given
@@ -447,7 +447,7 @@ BOUNDED = {
     "C04": [dict(family="front", args_quick=["--depth", "1", "--offset", "{seed}"], args_thorough=["--depth", "2", "--offset", "{seed}"],
                  obligation="frontend/bounded-standin/front.extract",
                  known_cases="contracts/known_front_cases.txt",
-                 what="the frontend, printer and glue (swc ASTs, trait objects, symbol tables: outside Verus' dialect) through the public entry point beff_core::extract: every program `type X = E; parse.buildParsers<{X: X}>()` for E built from 36 leaf types (basic types, literals, named object/union/tuple/recursive/generic types) with one type constructor out of 45 unary and 17 binary ones (arrays, tuples, objects, mapped and conditional types, keyof, indexed access, Record/Partial/Pick/Omit/Exclude/Extract, template literals, ...) - plus every third of them once more with the named types imported from another module - 31839 programs in the quick tier; a second constructor on top of a thinned subset (which one depends on VERIF_SEED) in the thorough tier - 882252 programs; plus 63 hand-written + 168 generated same-name layouts multi-file / malformed / circular projects. Checked per program, as the property states it: the call returns within 20 s, does not panic or crash the process, returns generated code (emit_code Ok and non-empty) or at least one diagnostic, every diagnostic names a file of the project and a line/column/byte range inside it, and the emitted module defines every named runtype exactly once, refers only to named runtypes it defines and has a buildParsersInput entry for every requested name. NOT checked: that the emitted module loads in Node (no TypeScript compiler for the client runtime offline)"),
+                 what="the frontend, printer and glue (swc ASTs, trait objects, symbol tables: outside Verus' dialect) through the public entry point beff_core::extract: every program `type X = E; parse.buildParsers<{X: X}>()` for E built from 36 leaf types (basic types, literals, named object/union/tuple/recursive/generic types) with one type constructor out of 45 unary and 17 binary ones (arrays, tuples, objects, mapped and conditional types, keyof, indexed access, Record/Partial/Pick/Omit/Exclude/Extract, template literals, ...) - plus every third of them once more with the named types imported from another module - 35699 programs in the quick tier (3860 of them generated unions of 2 to 4 object types discriminated by overlapping literal sets); a second constructor on top of a thinned subset (which one depends on VERIF_SEED) in the thorough tier - 886112 programs; plus 63 hand-written + 168 generated same-name layouts multi-file / malformed / circular projects. Checked per program, as the property states it: the call returns within 20 s, does not panic or crash the process, returns generated code (emit_code Ok and non-empty) or at least one diagnostic, every diagnostic names a file of the project and a line/column/byte range inside it, and the emitted module defines every named runtype exactly once, refers only to named runtypes it defines and has a buildParsersInput entry for every requested name. NOT checked: that the emitted module loads in Node (no TypeScript compiler for the client runtime offline)"),
             dict(family="refspanic", obligation="conversion/bounded-standin/refs.no_panic",
                  known_cases="contracts/known_refspanic_cases.txt",
                  what="convert_to_sem_type + is_subtype on named, possibly recursive types (not under contract): the 23769 questions of the `refs` family (see C05), a case fails only when the real code PANICS")],
